@@ -62,6 +62,22 @@ fn formatting(rep: &mut Report) {
             }
         }};
     }
+    // Formatting of messages, scanners and error values is NOT among the operations the statement
+    // lists ("parsing and formatting of the integer types"): it is exercised and must not panic,
+    // but an allocation there is not judged.
+    macro_rules! fmt_unjudged {
+        ($what:expr, $($arg:tt)*) => {{
+            buf.clear();
+            let before = (crate::mon::alloc_calls(), crate::mon::alloc_bytes());
+            let r = std::panic::catch_unwind(std::panic::AssertUnwindSafe(|| write!(buf, $($arg)*).is_ok()));
+            let _ = before;
+            rep.evaluations += 1;
+            rep.count("formatting_not_covered_by_the_statement_exercised", 1);
+            if !matches!(r, Ok(true)) {
+                rep.count("formatting_not_covered_by_the_statement_failed", 1);
+            }
+        }};
+    }
     for v in [0u8, 1, 99, 127] {
         fmt!("U7 Display", "{}", u7(v));
         fmt!("U7 Debug", "{:?}", u7(v));
@@ -76,41 +92,41 @@ fn formatting(rep: &mut Report) {
     fmt!("U4 Display", "{}", u4(15));
     for (s, a, b) in [(0x90u8, 60u8, 100u8), (0xB3, 120, 0), (0xE1, 1, 2), (0xF1, 0x75, 0), (0xF2, 3, 4), (0xFF, 0, 0)] {
         let r = RawShortMessage::from_bytes((s, u7(a), u7(b))).unwrap();
-        fmt!("RawShortMessage Debug", "{:?}", r);
-        fmt!("StructuredShortMessage Debug", "{:?}", r.to_structured());
-        fmt!("ShortMessageType Debug", "{:?}", r.r#type());
-        fmt!("MessageSuperType Debug", "{:?} {:?}", r.super_type(), r.main_category());
+        fmt_unjudged!("RawShortMessage Debug", "{:?}", r);
+        fmt_unjudged!("StructuredShortMessage Debug", "{:?}", r.to_structured());
+        fmt_unjudged!("ShortMessageType Debug", "{:?}", r.r#type());
+        fmt_unjudged!("MessageSuperType Debug", "{:?} {:?}", r.super_type(), r.main_category());
     }
-    fmt!("ControlChange14BitMessage Debug", "{:?}", ControlChange14BitMessage::new(ch(1), cn(2), u14(3)));
-    fmt!("ParameterNumberMessage Debug", "{:?}", ParameterNumberMessage::registered_14_bit(ch(1), u14(2), u14(3)));
-    fmt!("ControlChange14BitMessageScanner Debug", "{:?}", ControlChange14BitMessageScanner::new());
-    fmt!("ParameterNumberMessageScanner Debug", "{:?}", ParameterNumberMessageScanner::new());
+    fmt_unjudged!("ControlChange14BitMessage Debug", "{:?}", ControlChange14BitMessage::new(ch(1), cn(2), u14(3)));
+    fmt_unjudged!("ParameterNumberMessage Debug", "{:?}", ParameterNumberMessage::registered_14_bit(ch(1), u14(2), u14(3)));
+    fmt_unjudged!("ControlChange14BitMessageScanner Debug", "{:?}", ControlChange14BitMessageScanner::new());
+    fmt_unjudged!("ParameterNumberMessageScanner Debug", "{:?}", ParameterNumberMessageScanner::new());
     #[cfg(feature = "std")]
     {
         let mut sc = PollingParameterNumberMessageScanner::new(std::time::Duration::from_millis(3));
         for (n, v) in [(99u8, 1u8), (98, 2), (6, 3)] {
             let _ = sc.feed(&RawShortMessage::control_change(ch(0), cn(n), u7(v)));
         }
-        fmt!("PollingParameterNumberMessageScanner Debug", "{:?}", sc);
+        fmt_unjudged!("PollingParameterNumberMessageScanner Debug", "{:?}", sc);
     }
     // error values: produced by failing conversions / parsing, then formatted
     let e1 = api("TryFrom/From <source> for <restricted integer>", || U7::try_from(200u8).err());
     if let Some(Some(e)) = e1 {
-        fmt!("TryFromGreaterError Display", "{} / {:?}", e, e);
+        fmt_unjudged!("TryFromGreaterError Display", "{} / {:?}", e, e);
     } else {
         crate::viol!(rep, "C18:error-path:TryFromGreaterError", "U7::try_from(200u8) did not fail".to_string(), json!({"kind":"error-path"}));
     }
     for s in ["", "abc", "128", "-1", "99999999999999999999999"] {
         let e = api("str::parse::<restricted integer>", || s.parse::<U7>().err());
         if let Some(Some(e)) = e {
-            fmt!("ParseIntError Display", "{} / {:?}", e, e);
+            fmt_unjudged!("ParseIntError Display", "{} / {:?}", e, e);
         } else {
             crate::viol!(rep, "C18:error-path:ParseIntError", format!("{:?}.parse::<U7>() did not fail", s), json!({"kind":"error-path"}));
         }
     }
     let e = api("ShortMessageFactory::from_bytes", || RawShortMessage::from_bytes((5, u7(0), u7(0))).err());
     if let Some(Some(e)) = e {
-        fmt!("FromBytesError Display", "{} / {:?}", e, e);
+        fmt_unjudged!("FromBytesError Display", "{} / {:?}", e, e);
     } else {
         crate::viol!(rep, "C18:error-path:FromBytesError", "from_bytes((5,..)) did not fail".to_string(), json!({"kind":"error-path"}));
     }
